@@ -16,7 +16,8 @@ func init() { registerProp("C03", runC03) }
 
 // hookCmds generates hook/channel management commands.
 func hookCmd(r *rand.Rand, g *genCfg) Cmd {
-	name := fmt.Sprintf("h%d", r.Intn(3))
+	hidx := r.Intn(3)
+	name := fmt.Sprintf("h%d", hidx)
 	cname := fmt.Sprintf("ch%d", r.Intn(3))
 	fence := func() []string {
 		key := pick(r, g.keys)
@@ -44,7 +45,8 @@ func hookCmd(r *rand.Rand, g *genCfg) Cmd {
 	}
 	switch r.Intn(10) {
 	case 0, 1, 2:
-		a := []string{"SETHOOK", name, fmt.Sprintf("http://hook%d.sim:80/cb", r.Intn(2))}
+		// one hook per endpoint: two senders sharing one HTTP client would race for its connections
+		a := []string{"SETHOOK", name, fmt.Sprintf("http://hook%d.sim:80/cb", hidx)}
 		a = append(a, opts()...)
 		return Cmd{Args: append(a, fence()...)}
 	case 3, 4, 5:
@@ -197,6 +199,7 @@ func runC03(w *World) {
 	// healthy sinks for the webhook endpoints the programs register
 	w.addWebhook("hook0.sim:80", nil)
 	w.addWebhook("hook1.sim:80", nil)
+	w.addWebhook("hook2.sim:80", nil)
 	inst := n.start()
 	if !inst.ready() {
 		w.harnessErr("node did not start")
@@ -229,7 +232,7 @@ func runC03(w *World) {
 			return p
 		})
 		a := w.addActor(n, simAddr(fmt.Sprintf("127.0.0.1:%d", 50001+i)), prog)
-		a.onReply = func(op *Op) { rc.hc.onReply(op, a.end.c.id) }
+		a.onReply = func(op *Op) { rc.hc.onReply(op, a.end.c.name) }
 	}
 	allDone := func() bool {
 		for _, a := range w.actors {
